@@ -315,6 +315,9 @@ type mutCase struct {
 	Allowed  []string `json:"grants_allowed"`
 	Got      []string `json:"grants_of_mutant"`
 	Gained   []string `json:"gained"`
+	// Issued: both keys were minted by the real keygen.CreateKey (salts as the broker draws them); the replay uses
+	// the recorded strings, which stay valid because the harness license of a version is fixed
+	Issued bool `json:"issued_by_keygen,omitempty"`
 }
 
 type viol struct {
@@ -382,7 +385,7 @@ func judge(ver int, ks keySpec, donor *keySpec, e edit, orig, donorKey, mut stri
 		what := fmt.Sprintf("%s license: key issued for [%s] edited by %s at %s is accepted by Authorize and gains '%s' on %s, which the original does not grant",
 			cipherName[ver], ks.String(), kind, where, name, first[bit])
 		vs = append(vs, viol{sig: sig, what: what, cs: mutCase{Version: ver, Key: ks, Donor: donor, Edit: e, Original: orig, DonorKey: donorKey,
-			Mutant: mut, Allowed: allowed.list(), Got: got.list(), Gained: opNames(gain)}})
+			Mutant: mut, Allowed: allowed.list(), Got: got.list(), Gained: opNames(gain), Issued: kindSuffix == "-issued"}})
 	}
 	return vs, implied
 }
@@ -524,6 +527,46 @@ func (w *world) runUnit(u unit, quick bool) *unitResult {
 				one(edit{Kind: "bit-pair", BitA: a, BitB: b}, nil, "", allowed, single[a]|single[b], "")
 			}
 		}
+	case "issued":
+		// destination and donors are minted by the real keygen.CreateKey, i.e. with the salts the broker itself
+		// draws: what two independently issued keys can be spliced into. (Equal salts are the known finding
+		// "cross-equal-salt": a donor whose salt happens to equal the destination's is minted again; if the
+		// keygen hands out the same salt 20 times in a row the pair is used as it is.)
+		mint := func(sp keySpec) (string, uint16) {
+			k, err := env.Key(sp.Target, sp.Perms, time.Unix(sp.Expiry, 0))
+			if err != nil {
+				panic(fmt.Sprintf("keygen: %v", err))
+			}
+			raw, err := env.Cipher.DecryptKey([]byte(k))
+			if err != nil {
+				panic(fmt.Sprintf("keygen key does not decrypt: %v", err))
+			}
+			return k, raw.Salt()
+		}
+		var dstSalt uint16
+		orig, dstSalt = mint(ks)
+		allowed = grantsOf(env, orig, &r.calls)
+		for di := range w.specsA {
+			if di == u.key {
+				continue
+			}
+			ds := w.specsA[di]
+			dk, salt := mint(ds)
+			for try := 0; salt == dstSalt && try < 20; try++ {
+				dk, salt = mint(ds)
+			}
+			dg := grantsOf(env, dk, &r.calls)
+			union := make(grants, len(allowed))
+			for i := range union {
+				union[i] = allowed[i] | dg[i]
+			}
+			d := ds
+			for dst := 0; dst < 3; dst++ {
+				for src := 0; src < 3; src++ {
+					one(edit{Kind: "block-swap-cross", Dst: dst, Src: src}, &d, dk, union, 0, "-issued")
+				}
+			}
+		}
 	case "cross":
 		// destination = this key; donors = every other issued key with the same salt, and every
 		// issued key with another salt
@@ -586,16 +629,17 @@ func run(c *core.Ctx) {
 	}
 	c.Assume("issued keys are built field by field exactly as keygen.CreateKey builds them and encrypted with the license's real cipher, with a fixed salt instead of a crypto/rand salt (checked: the 22 non-salt bytes equal those of a key minted by the real CreateKey for the same request)")
 	c.Assume("cross-key block swaps use donors with an equal salt (an attacker gets those from ExtendKey, which copies the parent's salt, or by collecting ~200 keys: salts are 15 bits) and donors with another salt, reported under separate edit kinds")
+	c.Assume("a third donor family are keys minted by the real keygen.CreateKey (the broker's own salts): block swaps between two independently issued keys, reported as block-swap:cross-issued")
 	c.Assume("edits outside the menu (three or more independent edits) are not explored; cryptographic strength is not examined")
 
 	var units []unit
 	for _, v := range versions {
 		for k := range w.specsA {
 			if c.Quick() && !quickFullKey(w.specsA[k]) {
-				units = append(units, unit{ver: v, key: k, part: "xor1"}, unit{ver: v, key: k, part: "cross"})
+				units = append(units, unit{ver: v, key: k, part: "xor1"}, unit{ver: v, key: k, part: "cross"}, unit{ver: v, key: k, part: "issued"})
 				continue
 			}
-			units = append(units, unit{ver: v, key: k, part: "xor"}, unit{ver: v, key: k, part: "subst"}, unit{ver: v, key: k, part: "cross"})
+			units = append(units, unit{ver: v, key: k, part: "xor"}, unit{ver: v, key: k, part: "subst"}, unit{ver: v, key: k, part: "cross"}, unit{ver: v, key: k, part: "issued"})
 		}
 	}
 	// bit pairs last, and among them the quick-tier keys first: if the soft deadline cuts the run
@@ -718,10 +762,16 @@ func replay(c *core.Ctx, raw json.RawMessage) {
 	env := brokerx.MustNew(brokerx.Options{LicenseVersion: mc.Version})
 	var calls int64
 	orig := craft(env, mc.Key)
+	if mc.Issued {
+		orig = mc.Original
+	}
 	allowed := grantsOf(env, orig, &calls)
 	donorKey, suffix := "", ""
 	if mc.Donor != nil {
 		donorKey = craft(env, *mc.Donor)
+		if mc.Issued {
+			donorKey = mc.DonorKey
+		}
 		dg := grantsOf(env, donorKey, &calls)
 		for i := range allowed {
 			allowed[i] |= dg[i]
@@ -729,6 +779,9 @@ func replay(c *core.Ctx, raw json.RawMessage) {
 		suffix = "-other-salt"
 		if mc.Donor.Salt == mc.Key.Salt {
 			suffix = "-equal-salt"
+		}
+		if mc.Issued {
+			suffix = "-issued"
 		}
 	}
 	mut := apply(orig, donorKey, mc.Edit)
